@@ -68,8 +68,13 @@ def run(tier, seed, replay_path=None):
     # third batch: one large input on a fully memoized variant among small @leftrec jobs (resources handed from one
     # parse to the next - tables, buffers, pools - come back large while other threads ask for theirs)
     npool = int(os.environ.get("VERIF_MIRI_POOL_SEEDS", 4 if tier == "quick" else 64))
-    batches = [("general", start, nseeds, njobs, []), ("whitespace", start + 500000, nws, 12, ["ws"]), ("pool", start + 700000, npool, 6, ["pool"])]
-    info = {"batches": [], "threads": 3, "preemption_rate": 0.1, "clean_runs": 0, "seeds": nseeds + nws + npool, "wall_s": None, "violation": None}
+    # the general batch is split: sequential reference before the threads / after them (lazily initialised state is then
+    # first touched concurrently)
+    batches = [("general", start, nseeds - nseeds // 2, njobs, []), ("general-late", start + 300000, nseeds // 2, njobs, ["late"]),
+               ("whitespace", start + 500000, nws, 12, ["ws"]), ("pool", start + 700000, npool, 6, ["pool"]),
+               # one round per grammar, three threads start the same parses at once (first use of every feature under contention)
+               ("first-use", start + 900000, max(2, nseeds // 2), 0, ["first"])]
+    info = {"batches": [], "threads": 3, "preemption_rate": 0.1, "clean_runs": 0, "seeds": sum(b[2] for b in batches), "wall_s": None, "violation": None}
     rc = 0
     for bname, bstart, bn, bjobs, extra in batches:
         if bn <= 0 or rc:
@@ -119,5 +124,5 @@ def run(tier, seed, replay_path=None):
         f.write("\n")
     os.replace(ep + ".tmp", ep)
     if rc == 0:
-        log("C20 miri-sched: %d general + %d whitespace + %d pool seeds on 3 threads, no data race, UB or differing result (%.1fs)" % (nseeds, nws, npool, info["wall_s"]))
+        log("C20 miri-sched: %s on 3 threads, no data race, UB or differing result (%.1fs)" % (", ".join("%d %s" % (b["seed_range"][1] - b["seed_range"][0], b["name"]) for b in info["batches"]), info["wall_s"]))
     return rc
